@@ -79,7 +79,7 @@ CLAIMED = {
    note="Assumes party clocks within [1970-01-02, 2200-01-01]. Interactive-proof tamper verdicts are decided by the verification equation evaluated by the reference arithmetic under the tree's own tags (algebraically valid related tuples, e.g. u/v swapped under the key 1, are not required to fail). Known finding: MessageAugmentation with the plain message (see known_findings.json).",
    ref="DESIGN.md §4 C10"),
  "C20": dict(
-   text="The OS entropy device is simulated (libc getrandom seam). Each of the 12 randomized entry points is called N times (quick 256, thorough 4096) with identical arguments at a frozen simulated clock: in one call sequence, on 8 caller threads with their own device streams, across 4 process incarnations, under two device seeds, and in pairs of child processes with the seam on and with real OS entropy; every exposed ephemeral (points, masks, the ElGamal proof's recomputed commitment, commitment secret, keys, challenges, share values) must be pairwise distinct over the whole recorded history.",
+   text="The OS entropy device is simulated (libc getrandom seam). Each of the 12 randomized entry points is called N times (quick 256, thorough 4096; 8N in the single-sequence mode) with identical arguments at a frozen simulated clock: in one call sequence, on 8 caller threads with their own device streams, across 4 process incarnations, under two device seeds, with all entry points interleaved and every value compared with every other of its length, against the values of earlier runs on the same worker thread, and in pairs of child processes with the seam on and with real OS entropy; every exposed ephemeral (points, masks, the ElGamal proof's recomputed commitment, commitment secret, keys, challenges, share values) must be pairwise distinct over the whole recorded history.",
    note="Caller threads are real OS threads: the verdict is a property of the set of outputs and identical under every interleaving (blsful has no shared state to interleave); not asserted: how many bytes a call consumes. Entropy sources that are themselves broken (VM snapshot replay) are outside the premise.",
    ref="DESIGN.md §4 C20"),
  "C08": dict(
